@@ -1,2 +1,197 @@
-From Coq Require Import List NArith.
-From Orso Require Import Base.C06_Defs Model.C06 Proofs.C06.
+(* C06 - Type names resolve to exactly the type they denote.
+   Property theorems only; each is closed by [exact] of a lemma from Proofs/C06.v and followed
+   by Print Assumptions.
+
+   Reading guide (all definitions are in Model/C06.v, tables in Gen/C06_*.v):
+     from_name_gen X up s   OrsoTypes.from_name(s) where [up] is str.upper and [X] says, for code points
+                            >= 128, whether \d \w \s match and which digit value int() assigns;
+     from_name s            the instance for ASCII text (X0, ASCII upper);
+     tname / wf_name / render / denote   the well-formed type names of the property, how they are
+                            written (upper case, canonical decimals) and the description they denote;
+     wfb d                  d is a well-formed description;
+     column_model           FlatColumn(type=s), DataFrame.description, from_name(type code). *)
+From Coq Require Import List NArith ZArith Bool String.
+From Orso Require Import Base.C06_Defs Gen.C06_Types Gen.C06_Names Gen.C06_Env Gen.C06_Regex Model.C06 Proofs.C06.
+Import ListNotations.
+Open Scope N_scope.
+
+(* The four pattern literals handed to re.match in _parse_type (regenerated from the AST) are
+   the ones the recognisers m_array / m_decimal / m_varchar / m_blob were written for. *)
+Theorem C06_regex_texts_are_the_modelled_ones :
+  rx_array = txt "ARRAY<([\w\s\[\]\(\)]+)>" /\
+  rx_decimal = txt "DECIMAL\((\d+),\s*(\d+)\)" /\
+  rx_varchar = txt "VARCHAR\[(\d+)\]" /\
+  rx_blob = txt "BLOB\[(\d+)\]" /\
+  rx_method = txt "match".
+Proof. exact regex_texts_modelled. Qed.
+Print Assumptions C06_regex_texts_are_the_modelled_ones.
+
+(* Every well-formed type name - a member name, DECIMAL(p,s) with 0<=s<=p<=38, VARCHAR[n],
+   BLOB[n] (n within int()'s digit limit), ARRAY<T> for a member T other than ARRAY/DECIMAL -
+   written in ANY letter case (every s whose upper-casing is the canonical spelling), resolves to
+   exactly the description it denotes: that type, those parameters, that element type. *)
+Theorem C06_names_resolve :
+  forall (X : cext) (up : str -> str) (t : tname) (s : str),
+  wf_name t = true -> up s = render t -> from_name_gen X up s = Ok (denote t).
+Proof. exact names_resolve. Qed.
+Print Assumptions C06_names_resolve.
+
+(* The same, starting from the description: every well-formed description that has a name
+   (everything but the integer 0 and ARRAY without element type) is what each letter-case variant
+   of its rendering resolves to. *)
+Theorem C06_descriptions_round_trip :
+  forall (X : cext) (up : str -> str) (d : descr) (t : tname) (s : str),
+  wfb d = true -> name_of d = Some t ->
+  (forall n, d_len d = Some n -> digits_ok n = true) ->
+  up s = render t -> from_name_gen X up s = Ok d.
+Proof. exact descr_roundtrip. Qed.
+Print Assumptions C06_descriptions_round_trip.
+
+(* Any string whatsoever - under any upper-casing function and any treatment of non-ASCII
+   characters by \d \w \s and int() - resolves to a well-formed description or is rejected with
+   ValueError; no other exception, no ill-formed description. *)
+Theorem C06_total :
+  forall (X : cext) (up : str -> str) (s : str),
+  (exists d, from_name_gen X up s = Ok d /\ wfb d = true) \/ from_name_gen X up s = Raise ValueError.
+Proof. exact total. Qed.
+Print Assumptions C06_total.
+
+(* DECIMAL(p,s) with parameters outside 0 <= s <= p <= 38 is rejected with ValueError, in every
+   letter case, for all p and s (not only those enumerated by the correspondence). *)
+Theorem C06_decimal_out_of_range_rejected :
+  forall (X : cext) (up : str -> str) (p sc : N) (s : str),
+  ~ (sc <= p /\ p <= 38) -> up s = render (NDecimal p sc) -> from_name_gen X up s = Raise ValueError.
+Proof. exact decimal_rejected. Qed.
+Print Assumptions C06_decimal_out_of_range_rejected.
+
+(* Any spelling DECIMAL(<digits>,<blanks><digits>)<anything> - leading zeros, blanks after the
+   comma, trailing text (re.match is not anchored at the end) - is decided by the integer values
+   alone: in range it resolves to DECIMAL with exactly those values, otherwise ValueError
+   (also when a digit run exceeds int()'s limit). *)
+Theorem C06_decimal_any_spelling :
+  forall (X : cext) (up : str -> str) (s d1 d2 ws rest : str),
+  d1 <> [] -> Forall ascii_digit d1 -> d2 <> [] -> Forall ascii_digit d2 ->
+  forallb (is_space X) ws = true ->
+  up s = pfx_decimal ++ d1 ++ [ch_comma] ++ ws ++ d2 ++ [ch_rpar] ++ rest ->
+  from_name_gen X up s =
+    if (max_str_digits <? N.of_nat (List.length d1)) || (max_str_digits <? N.of_nat (List.length d2))
+    then Raise ValueError
+    else if (int_digits X d2 <=? int_digits X d1) && (int_digits X d1 <=? 38)
+         then Ok (mkD (TMember ty_decimal) None (Some (int_digits X d1)) (Some (int_digits X d2)) None)
+         else Raise ValueError.
+Proof. exact decimal_spelling. Qed.
+Print Assumptions C06_decimal_any_spelling.
+
+(* Whatever starts with ARRAY< (after upper-casing) and resolves at all, resolves to ARRAY with
+   an element type e such that: the text continues  e>  ; e is an enum member other than ARRAY and
+   DECIMAL; e does not start with any blacklisted name; e consists of pattern characters only. *)
+Theorem C06_array_element_is_plain_member :
+  forall (X : cext) (up : str -> str) (s : str) (d : descr),
+  prefixb pfx_array (up s) = true -> from_name_gen X up s = Ok d ->
+  exists e rest,
+    up s = pfx_array ++ e ++ ch_gt :: rest /\
+    d = plain (TMember ty_array) (Some e) /\
+    scalar_elt e = true /\
+    existsb (fun b => prefixb b e) array_blacklist = false /\
+    forallb (is_elem X) e = true.
+Proof. exact array_element. Qed.
+Print Assumptions C06_array_element_is_plain_member.
+
+(* Hence ARRAY<g> with g unknown (not a member name), nested or otherwise blacklisted (g starts
+   with ARRAY, LIST, NUMERIC, BSON, STRING, DECIMAL), or parameterised (g contains ( or [ ) is
+   rejected with ValueError. *)
+Theorem C06_array_bad_element_rejected :
+  forall (X : cext) (up : str -> str) (s g rest : str),
+  up s = pfx_array ++ g ++ ch_gt :: rest -> ~ In ch_gt g ->
+  (mem g member_names = false \/ existsb (fun b => prefixb b g) array_blacklist = true \/
+   In ch_lpar g \/ In ch_lbr g) ->
+  from_name_gen X up s = Raise ValueError.
+Proof. exact array_bad_element_rejected. Qed.
+Print Assumptions C06_array_bad_element_rejected.
+
+(* The type code DataFrame.description reports for a column carrying a well-formed description
+   (whose type and element type have enum value = name, i.e. are not the placeholder
+   _MISSING_TYPE) resolves back to the column's type, with the precision/scale the description
+   reports and the element type the column has. *)
+Theorem C06_type_code_round_trip :
+  forall d : descr,
+  wfb d = true -> proper d = true ->
+  exists d', from_name (type_code (column_of d)) = Ok d' /\
+             d_ty d' = d_ty (column_of d) /\
+             d_prec d' = desc_prec (column_of d) /\ d_scale d' = desc_scale (column_of d) /\
+             (forall e, d_elt (column_of d) = Some e -> d_elt d' = Some e).
+Proof. exact typecode_roundtrip. Qed.
+Print Assumptions C06_type_code_round_trip.
+
+(* End to end: a column declared with a well-formed name (any letter case) carries the type,
+   length, element type, precision and scale the name denotes, and its reported type code
+   resolves back to the same type with the reported precision/scale and the same element type. *)
+Theorem C06_declared_column :
+  forall (X : cext) (up : str -> str) (t : tname) (s : str),
+  wf_name t = true -> up s = render t -> proper (denote t) = true ->
+  exists c d',
+    column_model X up s = ColOk c (type_code c) (desc_prec c) (desc_scale c) (Ok d') /\
+    d_ty c = d_ty (denote t) /\ d_len c = d_len (denote t) /\ d_elt c = d_elt (denote t) /\
+    (forall p, d_prec (denote t) = Some p -> d_prec c = Some p) /\
+    (forall sc, d_scale (denote t) = Some sc -> d_scale c = Some sc) /\
+    d_ty d' = d_ty c /\ d_prec d' = desc_prec c /\ d_scale d' = desc_scale c /\
+    (forall e, d_elt c = Some e -> d_elt d' = Some e).
+Proof. exact declared_column. Qed.
+Print Assumptions C06_declared_column.
+
+(* ---------------- non-vacuity and worked instances ---------------- *)
+
+(* the hypotheses are satisfiable by non-trivial values, and letter-case variants exist *)
+Example C06_nonvacuous_names :
+  wf_name (NDecimal 38 38) = true /\ wf_name (NDecimal 10 2) = true /\ wf_name (NVarchar 18446744073709551616) = true /\
+  wf_name (NBlob 0) = true /\ wf_name (NArray (txt "TIMESTAMP")) = true /\ wf_name (NBase (txt "JSONB")) = true /\
+  upper (txt "dEcImAl(10,2)") = render (NDecimal 10 2) /\
+  upper (txt "array<Timestamp>") = render (NArray (txt "TIMESTAMP")) /\
+  from_name (txt "dEcImAl(10,2)") = Ok (mkD (TMember (txt "DECIMAL")) None (Some 10) (Some 2) None) /\
+  from_name (txt "varchar[12]") = Ok (mkD (TMember (txt "VARCHAR")) (Some 12) None None None) /\
+  from_name (txt "array<Timestamp>") = Ok (mkD (TMember (txt "ARRAY")) None None None (Some (txt "TIMESTAMP"))).
+Proof. repeat split; vm_compute; reflexivity. Qed.
+
+(* both outcomes of C06_total occur; the out-of-range and bad-element hypotheses are satisfiable *)
+Example C06_nonvacuous_rejections :
+  from_name (txt "STRING") = Raise ValueError /\
+  from_name (txt "DECIMAL(39,1)") = Raise ValueError /\ ~ (1 <= 39 /\ 39 <= 38) /\
+  from_name (txt "DECIMAL(5,6)") = Raise ValueError /\
+  from_name (txt "ARRAY<ARRAY<INTEGER>>") = Raise ValueError /\
+  from_name (txt "ARRAY<VARCHAR[10]>") = Raise ValueError /\
+  from_name (txt "ARRAY<INT>") = Raise ValueError /\
+  from_name (txt "DECIMAL(010, 02)trailing") = Ok (mkD (TMember (txt "DECIMAL")) None (Some 10) (Some 2) None) /\
+  from_name (txt "list") = Ok (mkD (TMember (txt "ARRAY")) None None None None) /\
+  name_of (mkD (TMember (txt "ARRAY")) None None None None) = None /\
+  from_name (txt "Variant") = Ok (mkD TZero None None None None).
+Proof. repeat split; try (vm_compute; reflexivity). intros [_ H]. vm_compute in H. apply H. reflexivity. Qed.
+
+(* a non-trivial interpretation of non-ASCII characters: Arabic-Indic digits (U+0663 = 3, U+0661 = 1)
+   matched by \d and valued by int(), and the dotless i upper-cased to I by str.upper *)
+Example C06_nonvacuous_unicode :
+  let X := ext_of [(1635, (Some 3, true, false)); (1633, (Some 1, true, false))] in
+  from_name_gen X (fun _ => txt "DECIMAL(" ++ [1635; 44; 1633; 41]) [100] =
+    Ok (mkD (TMember (txt "DECIMAL")) None (Some 3) (Some 1) None) /\
+  from_name_gen X0 (fun _ => txt "TIME") [116; 305; 109; 101] = Ok (mkD (TMember (txt "TIME")) None None None None).
+Proof. split; vm_compute; reflexivity. Qed.
+
+(* columns and type codes: DECIMAL without parameters gets the context precision and 3/4 of it as
+   scale and reports DECIMAL(28,21); VARCHAR[12] reports VARCHAR (the length is not in the code) *)
+Example C06_nonvacuous_columns :
+  column_model X0 upper (txt "decimal") =
+    ColOk (mkD (TMember (txt "DECIMAL")) None (Some 28) (Some 21) None) (txt "DECIMAL(28,21)") (Some 28) (Some 21)
+          (Ok (mkD (TMember (txt "DECIMAL")) None (Some 28) (Some 21) None)) /\
+  column_model X0 upper (txt "varchar[12]") =
+    ColOk (mkD (TMember (txt "VARCHAR")) (Some 12) None None None) (txt "VARCHAR") None None
+          (Ok (mkD (TMember (txt "VARCHAR")) None None None None)) /\
+  proper (denote (NArray (txt "DATE"))) = true /\ proper (denote (NDecimal 10 2)) = true.
+Proof. repeat split; vm_compute; reflexivity. Qed.
+
+(* why [proper] is needed: the placeholder member _MISSING_TYPE has value "0"; its type code
+   resolves to the integer 0, not back to the member (cf. known finding F-C16-4b), and the code
+   ARRAY<0> of an array of placeholders does not resolve at all *)
+Example C06_placeholder_type_code :
+  proper (plain (TMember ty_missing) None) = false /\
+  from_name (type_code (column_of (plain (TMember ty_missing) None))) = Ok (plain TZero None) /\
+  from_name (type_code (column_of (plain (TMember ty_array) (Some ty_missing)))) = Raise ValueError.
+Proof. repeat split; vm_compute; reflexivity. Qed.
